@@ -758,7 +758,9 @@ impl Scenario for C05 {
             });
         }
         if let Some(f) = fam {
-            ctx.check::<C05>(&f);
+            if ctx.history_this_run() {
+                ctx.check::<C05>(&f);
+            }
         }
         if ctx.run % 4 == 0 {
             for attr in [3u16, 4, 18, 19] {
